@@ -383,9 +383,82 @@ def oracle_tempfile(col, case, nm, sub='tempfile'):
                      'content" at %r: new file holds %r'
                      % (call, diff, now.get(os.path.basename(p), b'')[:40]),
                      case)
+        if depth > 0 and not default_dir:
+            # history: the directories are removed from outside and the very
+            # same call is made again - "creating missing directories first"
+            # holds for every call, not only for the first one per path
+            shutil.rmtree(os.path.join(base, 'lvl0'))
+            try:
+                p = fileutils.write_to_tempfile(content, **kw)
+            except Exception as e:
+                _bad(sub, 'write_to_tempfile(%r, %r) raised %r after the '
+                     'directory it had created earlier was removed'
+                     % (content[:20], kw, e), case)
+            if not os.path.isfile(p) or os.path.realpath(
+                    os.path.dirname(p)) != os.path.realpath(target):
+                _bad(sub, 'after the directory was removed and the call '
+                     'repeated, %r is not a file in %r' % (p, target), case)
+            with open(p, 'rb') as f:
+                if f.read() != content:
+                    _bad(sub, 'repeated call wrote different content', case)
     finally:
         tempfile.tempdir = saved_tempdir
         shutil.rmtree(base, ignore_errors=True)
+
+
+def concurrent_checksums(col, nthreads, rounds):
+    """Several threads compute checksums of different files at the same
+    time; every result must be the digest of its own file."""
+    import threading
+    from oslo_utils import fileutils
+    sub = 'checksum/concurrent'
+    with scratch_dir() as root:
+        files = []
+        for i in range(nthreads):
+            size = 700000 + 65536 * i + i
+            data = blob(1000 + i, size)
+            path = os.path.join(root, 'f%d' % i)
+            with open(path, 'wb') as f:
+                f.write(data)
+            files.append((path, size, hashlib.sha256(data).hexdigest(),
+                          hashlib.md5(data).hexdigest()))  # nosec
+        errors = []
+        barrier = threading.Barrier(nthreads)
+
+        def work(i):
+            path, size, want256, want5 = files[i]
+            barrier.wait()
+            for r in range(rounds):
+                for alg, want in (('sha256', want256), ('md5', want5)):
+                    for chunk in (65536, 4096):
+                        try:
+                            got = fileutils.compute_file_checksum(
+                                path, read_chunksize=chunk, algorithm=alg)
+                        except Exception as e:     # noqa
+                            got = 'raised %r' % (e,)
+                        if got != want:
+                            errors.append((i, size, alg, chunk, got, want))
+                            return
+
+        threads = [threading.Thread(target=work, args=(i,))
+                   for i in range(nthreads)]
+        for t in threads:
+            t.start()
+        for t in threads:
+            t.join()
+        col.case(sub, ('threads', nthreads, rounds), True, 'threads/%d'
+                 % nthreads, {'threads': nthreads, 'rounds': rounds,
+                              'files': [f[1] for f in files]})
+        col.count(sub, nthreads * rounds * 4 - 1)
+        if errors:
+            i, size, alg, chunk, got, want = errors[0]
+            raise Violation(sub, 'compute_file_checksum(file of %d bytes, '
+                            'read_chunksize=%d, %s) = %s while %d other '
+                            'threads were checksumming other files; digest '
+                            'of the content is %s' % (size, chunk, alg, got,
+                                                      nthreads - 1, want),
+                            {'concurrent': True, 'threads': nthreads,
+                             'rounds': rounds})
 
 
 TEMP_CONTENTS = (b'', b'x', b'line\n', b'a\r\nb\r\n', b'\x00', b'\xff\xfe\x00',
@@ -687,6 +760,8 @@ def tasks(tier, seed):
     out.append(Task('last_bytes/family', last_bytes_family, sizes=LB_SIZES[:9]))
     out.append(Task('last_bytes/family', last_bytes_family, sizes=LB_SIZES[9:]))
     out.append(Task('tempfile/family', tempfile_family))
+    out.append(Task('checksum/concurrent', concurrent_checksums, nthreads=6,
+                    rounds=3 if tier == 'quick' else 20))
     out.append(Task('fs', fs_family))
     for target in ('makedirs', 'tempfile', 'remove'):
         out.append(Task('errno', errno_family, target=target))
@@ -707,6 +782,8 @@ def replay(rec):
     case = rec['case']
     sub = rec.get('sub', '')
     col = core.Collector()
+    if case.get('concurrent'):
+        return concurrent_checksums(col, case['threads'], case['rounds'])
     with scratch_dir() as root:
         nm = Namer(root)
         if 'chunk' in case:
